@@ -1,6 +1,6 @@
 (* Tap/Proofs.v — theorems about the TAP model (C18). *)
 From MV Require Import Base.Strs Base.LexFacts Tap.Lines Tap.Machine Tap.Verdict Tap.Spec.
-From Coq Require Import Lia.
+From Coq Require Import Lia Permutation.
 Open Scope N_scope.
 
 (* ------------------------------------------------------------------ *)
@@ -71,7 +71,7 @@ Qed.
 
 (* the fields the numbering/plan logic lives in *)
 Definition ctr (s : state) :=
-  (found_late_test s, bailed_out s, cur_plan s, num_tests s, last_test s, highest_test s).
+  (found_late_test s, bailed_out s, cur_plan s, num_tests s, last_test s, highest_test s, seen_tests s).
 
 Lemma set_lineno_ctr s n : ctr (set_lineno s n) = ctr s.
 Proof. reflexivity. Qed.
@@ -95,7 +95,7 @@ Definition late_now (s : state) : bool :=
   match cur_plan s with Some p => p_late p && negb (found_late_test s) | None => false end.
 Definition test_state (s : state) (n : N) : state :=
   set_st (set_counts (if late_now s then set_late s true else s)
-                     (num_tests s + 1) n (N.max (highest_test s) n)) AfterTest.
+                     (num_tests s + 1) n (N.max (highest_test s) n) (add_seen n (seen_tests s))) AfterTest.
 Definition test_events (s : state) (n : N) (ok : bool) (name : str) (dir : option (str * str)) : list event :=
   (if late_now s then [EError KLate] else []) ++
   (match cur_plan s with Some p => if p_num p <? n then [EError KExceeds] else [] | None => [] end) ++
@@ -151,12 +151,13 @@ Proof.
     assert (Hnt : num_tests (if late_now s then set_late s true else s) = num_tests s) by (destruct (late_now s); reflexivity).
     assert (Hlt : last_test (if late_now s then set_late s true else s) = last_test s) by (destruct (late_now s); reflexivity).
     assert (Hht : highest_test (if late_now s then set_late s true else s) = highest_test s) by (destruct (late_now s); reflexivity).
+    assert (Hsn : seen_tests (if late_now s then set_late s true else s) = seen_tests s) by (destruct (late_now s); reflexivity).
     destruct num as [ds|]; cbn [bind] in H.
     + destruct (py_int ds) as [n|c] eqn:Hn; cbn [bind] in H; [|discriminate].
       apply py_int_Ok in Hn. destruct Hn as [Hn Hl]. exists n. split; [auto|].
-      inversion H. unfold test_state, test_events. rewrite Hplan, Hnt, Hht. auto.
+      inversion H. unfold test_state, test_events. rewrite Hplan, Hnt, Hht, Hsn. auto.
     + exists (last_test s + 1). split; [reflexivity|].
-      inversion H. unfold test_state, test_events. rewrite Hplan, Hnt, Hht, Hlt. auto.
+      inversion H. unfold test_state, test_events. rewrite Hplan, Hnt, Hht, Hlt, Hsn. auto.
   - (* plan *)
     destruct (cur_plan s) as [p|] eqn:Hp.
     { intro H. inversion H. auto. }
@@ -280,7 +281,7 @@ Proof. split; simpl; auto; try tauto; discriminate. Qed.
 
 Lemma Inv_ctr acc s s' : ctr s' = ctr s -> Inv acc s -> Inv acc s'.
 Proof.
-  unfold ctr. intros H [I1 I2 I3 I4 I5 I6 I7 I8]. inversion H as [[H1 H2 H3 H4 H5 H6]].
+  unfold ctr. intros H [I1 I2 I3 I4 I5 I6 I7 I8]. inversion H as [[H1 H2 H3 H4 H5 H6 H7]].
   split; rewrite ?H1, ?H2, ?H3, ?H4, ?H5, ?H6; auto.
 Qed.
 
@@ -458,7 +459,7 @@ Lemma eof_spec s e2 : eof s = Ok e2 ->
   quiet e2 /\
   (st s = Yaml -> In (EError KYaml) e2) /\
   (bailed_out s = false -> forall p, cur_plan s = Some p -> num_tests s <> p_num p -> has_error e2 = true) /\
-  (bailed_out s = false -> highest_test s <> num_tests s -> has_error e2 = true).
+  (bailed_out s = false -> numbering_bad s = true -> has_error e2 = true).
 Proof.
   unfold eof.
   set (ev1 := match st s with Yaml => [EError KYaml] | _ => [] end).
@@ -466,20 +467,20 @@ Proof.
   assert (Y1 : st s = Yaml -> In (EError KYaml) ev1) by (unfold ev1; intros ->; left; reflexivity).
   destruct (bailed_out s).
   { intro H. inversion H; subst. repeat split; auto; discriminate. }
-  assert (NUM : forall e, (if negb (highest_test s =? num_tests s)
+  assert (NUM : forall e, (if numbering_bad s
                  then if py_str_ok (highest_test s)
-                      then Ok (ev1 ++ [EError (if highest_test s <? num_tests s then KDup else KMissing)])
+                      then Ok (ev1 ++ [EError (numbering_kind s)])
                       else PyErr ValueError
                  else Ok ev1) = Ok e ->
                 quiet e /\ (st s = Yaml -> In (EError KYaml) e) /\
-                (highest_test s <> num_tests s -> has_error e = true)).
-  { intros e. destruct (N.eqb_spec (highest_test s) (num_tests s)) as [E|E]; simpl.
-    - intro H. inversion H; subst. repeat split; auto; congruence.
+                (numbering_bad s = true -> has_error e = true)).
+  { intros e. destruct (numbering_bad s); simpl.
     - destruct (py_str_ok (highest_test s)); [|discriminate].
       intro H. inversion H; subst. repeat split.
       + apply quiet_app; [exact Q1|reflexivity].
       + intro Hy. apply in_or_app. left. auto.
-      + intros _. rewrite has_error_app. simpl. apply orb_true_r. }
+      + intros _. rewrite has_error_app. simpl. apply orb_true_r.
+    - intro H. inversion H; subst. repeat split; auto; discriminate. }
   destruct (cur_plan s) as [p|] eqn:Hp.
   - destruct (N.eqb_spec (num_tests s) (p_num p)) as [E|E]; simpl.
     + intro H. apply NUM in H. destruct H as [Q [Y Hh]]. repeat split; auto.
@@ -490,6 +491,11 @@ Proof.
       * intros _ q _ _. rewrite has_error_app. simpl. apply orb_true_r.
       * intros _ _. rewrite has_error_app. simpl. apply orb_true_r.
   - intro H. apply NUM in H. destruct H as [Q [Y Hh]]. repeat split; auto. discriminate.
+Qed.
+
+Lemma numbering_bad_high s : highest_test s <> num_tests s -> numbering_bad s = true.
+Proof.
+  intro H. unfold numbering_bad. apply N.eqb_neq in H. rewrite H. reflexivity.
 Qed.
 
 (* ------------------------------------------------------------------ *)
@@ -522,7 +528,7 @@ Proof.
   rewrite maxnum_app, (quiet_maxnum _ Q), N.max_0_r in Hne.
   rewrite (Hnum (eq_trans (inv_bail _ _ I) Hb)).
   - rewrite orb_true_r. reflexivity.
-  - rewrite (inv_count _ _ I), (inv_high _ _ I). exact Hne.
+  - apply numbering_bad_high. rewrite (inv_count _ _ I), (inv_high _ _ I). exact Hne.
 Qed.
 
 (* a test number beyond the plan produces an error/bail-out event, wherever the plan is *)
@@ -737,9 +743,9 @@ Proof.
   intros Hl B1 B2. unfold parse_line.
   pose proof (pre_line_facts (set_lineno s (lineno s + 1)) l) as F.
   destruct (pre_line (set_lineno s (lineno s + 1)) l) as [s1|s1 pre].
-  - destruct F as [F _]. unfold ctr in F. inversion F as [[F1 F2 F3 F4 F5 F6]].
+  - destruct F as [F _]. unfold ctr in F. inversion F as [[F1 F2 F3 F4 F5 F6 F7]].
     exists s1, []. split; [reflexivity|]. rewrite F5, F6. simpl. lia.
-  - destruct F as [F _]. unfold ctr in F. inversion F as [[F1 F2 F3 F4 F5 F6]].
+  - destruct F as [F _]. unfold ctr in F. inversion F as [[F1 F2 F3 F4 F5 F6 F7]].
     destruct (main_line_total s1 l k Hl) as [s' [e [Hm [C1 C2]]]].
     + rewrite F5. exact B1.
     + rewrite F6. exact B2.
@@ -763,7 +769,7 @@ Proof.
   intro H. unfold eof, py_str_ok. apply N.ltb_lt in H. rewrite H.
   destruct (bailed_out s); [eauto|].
   destruct (cur_plan s) as [p|]; [destruct (negb (num_tests s =? p_num p)); [eauto|]|];
-    destruct (negb (highest_test s =? num_tests s)); eauto.
+    destruct (numbering_bad s); eauto.
 Qed.
 
 Theorem no_raise_partial lines : short_lines lines -> exists evs, parse lines = Ok evs.
@@ -804,11 +810,11 @@ Qed.
 Lemma eof_exc s c : eof s = PyErr c -> c = ValueError.
 Proof.
   unfold eof. destruct (bailed_out s); [discriminate|].
-  assert (N : forall ev1, (if negb (highest_test s =? num_tests s)
+  assert (N : forall ev1, (if numbering_bad s
        then if py_str_ok (highest_test s)
-            then Ok (ev1 ++ [EError (if highest_test s <? num_tests s then KDup else KMissing)])
+            then Ok (ev1 ++ [EError (numbering_kind s)])
             else PyErr ValueError else Ok ev1) = PyErr c -> c = ValueError).
-  { intro ev1. destruct (negb (highest_test s =? num_tests s)); [|discriminate].
+  { intro ev1. destruct (numbering_bad s); [|discriminate].
     destruct (py_str_ok (highest_test s)); [discriminate|]. intro H. inversion H. reflexivity. }
   destruct (cur_plan s) as [p|]; [destruct (negb (num_tests s =? p_num p)); [discriminate|]|]; apply N.
 Qed.
@@ -835,12 +841,19 @@ Theorem no_raise_refuted :
   exists lines, parse lines = PyErr ValueError /\ length lines = 1%nat.
 Proof. exists [s2l "ok " ++ repeat 57 4301]. split; [vm_compute; reflexivity|reflexivity]. Qed.
 
-(* str(int) in the end-of-stream message: 4300 nines followed by an unnumbered test *)
-Theorem no_raise_refuted_str :
-  exists lines, parse lines = PyErr ValueError /\ forall l, In l lines -> (length l <= 4303)%nat.
+(* str(int) in the end-of-stream message: whenever the highest test number has reached 10^4300
+   (e.g. 4300 nines followed by an unnumbered test, see run_verdict_refuted for a stream that gets
+   there) and the numbering message is due, the parser raises.  Stated for every such state: the
+   independent checker (coqchk, thorough tier) needs about 13 minutes per evaluated 4300-digit
+   stream, so only one such stream is evaluated in this development. *)
+Theorem eof_str_raises s :
+  bailed_out s = false -> cur_plan s = None -> str_limit <= highest_test s -> num_tests s < str_limit ->
+  eof s = PyErr ValueError.
 Proof.
-  exists [s2l "ok " ++ repeat 57 4300; s2l "ok"]. split; [vm_compute; reflexivity|].
-  intros l [<-|[<-|[]]]; vm_compute; lia.
+  intros Hb Hp Hh Hn. unfold eof. rewrite Hb, Hp.
+  rewrite (numbering_bad_high s) by lia.
+  unfold py_str_ok. replace (highest_test s <? str_limit) with false; [reflexivity|].
+  symmetry. apply N.ltb_ge. exact Hh.
 Qed.
 
 (* the guard of no_raise_partial is satisfiable by a non-trivial stream *)
@@ -1092,16 +1105,16 @@ Proof.
   assert (Y : Forall P (match st s with Yaml => [EError KYaml] | _ => [] end)).
   { destruct (st s); constructor; [apply HE; simpl; auto 10|constructor]. }
   destruct (bailed_out s); [inversion H2; subst; exact Y|].
-  assert (N : forall e, (if negb (highest_test s =? num_tests s)
+  assert (N : forall e, (if numbering_bad s
        then if py_str_ok (highest_test s)
             then Ok (match st s with Yaml => [EError KYaml] | _ => [] end ++
-                     [EError (if highest_test s <? num_tests s then KDup else KMissing)])
+                     [EError (numbering_kind s)])
             else PyErr ValueError
        else Ok (match st s with Yaml => [EError KYaml] | _ => [] end)) = Ok e -> Forall P e).
-  { intro e0. destruct (negb (highest_test s =? num_tests s)); [|intro X; inversion X; subst; exact Y].
+  { intro e0. destruct (numbering_bad s); [|intro X; inversion X; subst; exact Y].
     destruct (py_str_ok (highest_test s)); [|discriminate]. intro X; inversion X; subst.
     apply Forall_app. split; [exact Y|]. constructor; [|constructor].
-    apply HE. destruct (highest_test s <? num_tests s); simpl; auto 10. }
+    apply HE. unfold numbering_kind. destruct ((highest_test s <? num_tests s) || negb (N.of_nat (length (seen_tests s)) =? num_tests s)); simpl; auto 10. }
   destruct (cur_plan s) as [p|]; [|apply N; exact H2].
   destruct (negb (num_tests s =? p_num p)); [|apply N; exact H2].
   inversion H2; subst. apply Forall_app. split; [exact Y|]. constructor; [|constructor].
@@ -1399,19 +1412,135 @@ Qed.
 (* ------------------------------------------------------------------ *)
 (* Numbering: what the highest-number check does and does not detect   *)
 
-Theorem numbering_refuted :
-  exists lines evs, parse lines = Ok evs /\ numbers evs = [1; 1; 3] /\ faulty evs = false.
+(* the set of numbers seen (fix C18-numbering-undetected) *)
+Definition InvS (acc : list event) (s : state) : Prop :=
+  NoDup (seen_tests s) /\ forall n, In n (seen_tests s) <-> In n (numbers acc).
+
+Lemma memb_In c l : memb c l = true <-> In c l.
 Proof.
-  exists [s2l "ok 1"; s2l "ok 1"; s2l "ok 3"]. eexists.
-  split; [vm_compute; reflexivity|]. split; vm_compute; reflexivity.
+  induction l as [|x l IH]; simpl; [split; [discriminate|tauto]|].
+  rewrite orb_true_iff, IH, N.eqb_eq. split; intros [H|H]; auto.
+Qed.
+
+Lemma InvS_ctr acc s s' : ctr s' = ctr s -> InvS acc s -> InvS acc s'.
+Proof. unfold ctr, InvS. intros C H. inversion C as [[C1 C2 C3 C4 C5 C6 C7]]. rewrite C7. exact H. Qed.
+
+Lemma InvS_quiet acc s x : quiet x -> InvS acc s -> InvS (acc ++ x) s.
+Proof.
+  unfold InvS. intros Q [A B]. split; [exact A|]. intro n. rewrite numbers_app.
+  unfold numbers at 2. rewrite (quiet_tests _ Q). simpl. rewrite app_nil_r. apply B.
+Qed.
+
+Lemma InvS_notest acc s s' e : tests_of [e] = [] -> seen_tests s' = seen_tests s -> InvS acc s -> InvS (acc ++ [e]) s'.
+Proof.
+  unfold InvS. intros T E [A B]. rewrite E. split; [exact A|]. intro n. rewrite numbers_app.
+  unfold numbers at 2. rewrite T. simpl. rewrite app_nil_r. apply B.
+Qed.
+
+Lemma main_invS acc s l s' e : InvS acc s -> main_line s l = Ok (s', e) -> InvS (acc ++ e) s'.
+Proof.
+  intros I H. apply main_line_spec in H.
+  destruct (line_class l) as [[ok num name dir|ds dir|m|ds|]|].
+  - destruct H as [n [_ [-> ->]]].
+    destruct (test_events_shape s n ok name dir) as [errs [r [ex [-> [Q _]]]]].
+    rewrite app_assoc. pose proof (InvS_quiet _ _ _ Q I) as [A B].
+    assert (E : seen_tests (test_state s n) = add_seen n (seen_tests s))
+      by (unfold test_state; destruct (late_now s); reflexivity).
+    unfold InvS. rewrite E. unfold add_seen. split.
+    + destruct (memb n (seen_tests s)) eqn:M; [exact A|].
+      constructor; [|exact A]. intro Hin. apply memb_In in Hin. congruence.
+    + intro k. rewrite numbers_app. unfold numbers at 2. simpl. rewrite in_app_iff. simpl.
+      destruct (memb n (seen_tests s)) eqn:M.
+      * apply memb_In in M. rewrite <- B. split; [auto|]. intros [H|[->|[]]]; auto.
+      * simpl. rewrite B. tauto.
+  - destruct (cur_plan s).
+    + destruct H as [-> ->]. apply InvS_quiet; [reflexivity|exact I].
+    + destruct H as [p [errs [-> [-> [_ [_ [Q _]]]]]]]. rewrite app_assoc.
+      apply (InvS_notest _ s); [reflexivity|reflexivity|]. apply InvS_quiet; assumption.
+  - destruct H as [-> ->]. apply (InvS_notest _ s); [reflexivity|reflexivity|exact I].
+  - destruct (negb (lineno s =? 1)).
+    + destruct H as [-> ->]. apply InvS_quiet; [reflexivity|exact I].
+    + destruct H as [-> [_ ->]]. destruct (digits_val ds <? 13); apply (InvS_notest _ s); try reflexivity; exact I.
+  - destruct H as [-> ->]. apply (InvS_notest _ s); [reflexivity|reflexivity|exact I].
+  - destruct H as [-> ->]. rewrite app_nil_r. exact I.
+Qed.
+
+Lemma step_invS acc s l s' e : InvS acc s -> parse_line s l = Ok (s', e) -> InvS (acc ++ e) s'.
+Proof.
+  intros I H. apply parse_line_spec in H.
+  destruct H as [[Hp ->]|[s1 [pre [e' [Hp [Hm ->]]]]]].
+  - rewrite app_nil_r. pose proof (pre_line_facts (set_lineno s (lineno s + 1)) l) as F.
+    rewrite Hp in F. destruct F as [F _]. apply (InvS_ctr _ s); [rewrite F; reflexivity|exact I].
+  - pose proof (pre_line_facts (set_lineno s (lineno s + 1)) l) as F.
+    rewrite Hp in F. destruct F as [F [_ [_ [_ Fp]]]].
+    rewrite app_assoc. apply (main_invS _ s1 l); [|exact Hm].
+    apply (InvS_ctr _ s); [rewrite F; reflexivity|].
+    apply InvS_quiet; [|exact I]. destruct Fp as [->|[-> _]]; reflexivity.
+Qed.
+
+Lemma run_lines_invS lines : forall acc s s' e,
+  InvS acc s -> run_lines s lines = Ok (s', e) -> InvS (acc ++ e) s'.
+Proof.
+  induction lines as [|l lines IH]; intros acc s s' e I H; simpl in H.
+  - inversion H; subst. rewrite app_nil_r. exact I.
+  - destruct (parse_line s l) as [[s1 e1]|c] eqn:H1; cbn [bind] in H; [|discriminate].
+    destruct (run_lines s1 lines) as [[s2 e2]|c] eqn:H2; cbn [bind] in H; [|discriminate].
+    inversion H; subst. rewrite app_assoc. eapply IH; [|exact H2].
+    eapply step_invS; eassumption.
+Qed.
+
+Fixpoint iota (a : N) (k : nat) : list N :=
+  match k with O => [] | S k' => a :: iota (a + 1) k' end.
+Lemma iota_length a k : length (iota a k) = k.
+Proof. revert a; induction k as [|k IH]; intro a; simpl; [reflexivity|]. rewrite IH. reflexivity. Qed.
+Lemma iota_In a k n : a <= n -> n < a + N.of_nat k -> In n (iota a k).
+Proof.
+  revert a; induction k as [|k IH]; intros a H1 H2; simpl; [lia|].
+  destruct (N.eq_dec a n) as [->|E]; [left; reflexivity|]. right. apply IH; lia.
+Qed.
+
+(* "duplicate or missing numbers" (with the fix): whenever the numbers of the subtests are not
+   exactly 1..k in some order, an error/bail-out event is produced — for every stream *)
+Theorem numbering_full lines evs :
+  parse lines = Ok evs ->
+  ~ Permutation (numbers evs) (iota 1 (length (numbers evs))) -> faulty evs = true.
+Proof.
+  intros H Hnp. destruct (faulty evs) eqn:Fy; [reflexivity|exfalso]. apply Hnp. clear Hnp.
+  assert (Hmax : maxnum evs = count_tests evs).
+  { destruct (N.eq_dec (maxnum evs) (count_tests evs)) as [E|E]; [exact E|].
+    rewrite (numbering_partial _ _ H E) in Fy. discriminate. }
+  apply parse_split in H. destruct H as [s [e [e2 [R [He [-> I]]]]]].
+  pose proof (run_lines_invS lines [] init s e) as IS. simpl in IS.
+  destruct IS as [ND SB]; [split; [constructor|intro n; simpl; tauto]|exact R|].
+  pose proof (eof_spec _ _ He) as [Q [_ [_ Hnum]]].
+  assert (Hnb : numbering_bad s = false).
+  { destruct (numbering_bad s) eqn:NB; [|reflexivity].
+    unfold faulty in Fy. rewrite has_error_app, has_bail_app in Fy.
+    destruct (has_bail e) eqn:Hb; [rewrite orb_true_r in Fy; destruct (has_error e || has_error e2); discriminate|].
+    rewrite (Hnum (eq_trans (inv_bail _ _ I) Hb) eq_refl) in Fy. rewrite orb_true_r in Fy. discriminate. }
+  unfold numbering_bad in Hnb. apply orb_false_iff in Hnb. destruct Hnb as [Hnb H0].
+  apply orb_false_iff in Hnb. destruct Hnb as [_ Hlen].
+  apply negb_false_iff in Hlen. apply N.eqb_eq in Hlen.
+  assert (EN : numbers (e ++ e2) = numbers e).
+  { rewrite numbers_app. unfold numbers at 2. rewrite (quiet_tests _ Q). apply app_nil_r. }
+  rewrite EN. rewrite maxnum_app, (quiet_maxnum _ Q), N.max_0_r in Hmax.
+  assert (CT : count_tests (e ++ e2) = N.of_nat (length (numbers e))).
+  { rewrite count_tests_app, (quiet_count _ Q). unfold count_tests, numbers. rewrite map_length. lia. }
+  assert (LEN : length (seen_tests s) = length (numbers e)).
+  { rewrite (inv_count _ _ I) in Hlen. unfold count_tests, numbers in *. rewrite map_length. lia. }
+  assert (NDn : NoDup (numbers e)).
+  { apply (@NoDup_incl_NoDup N (seen_tests s)); [exact ND|lia|]. intros n Hn. apply SB. exact Hn. }
+  apply NoDup_Permutation_bis; [exact NDn|rewrite iota_length; lia|].
+  intros n Hn. apply iota_In.
+  - destruct (N.eq_dec n 0) as [->|E]; [|lia].
+    apply SB in Hn. apply memb_In in Hn. congruence.
+  - apply In_le_fold_max in Hn. change (fold_right N.max 0 (numbers e)) with (maxnum e) in Hn.
+    rewrite CT in Hmax. lia.
 Qed.
 
 (* numbers given in increasing order, starting at a or above *)
 Fixpoint incr_from (a : N) (l : list N) : Prop :=
   match l with [] => True | x :: r => a <= x /\ incr_from (x + 1) r end.
-Fixpoint iota (a : N) (k : nat) : list N :=
-  match k with O => [] | S k' => a :: iota (a + 1) k' end.
-
 Lemma incr_lower l : forall a, incr_from a l -> l <> [] ->
   a + N.of_nat (length l) <= fold_right N.max 0 l + 1.
 Proof.
@@ -1460,4 +1589,139 @@ Theorem verdict_bad_subtests lines evs rc :
   is_bad (verdict rc false evs) = existsb bad_subtest (results evs) || faulty evs || negb (Z.eqb rc 0).
 Proof.
   intro H. rewrite verdict_bad. rewrite (results_sane _ (events_sane _ _ H)). reflexivity.
+Qed.
+
+(* ------------------------------------------------------------------ *)
+(* The verdict for both values of should_fail: which event decides      *)
+
+(* the local variable res of TestRunTAP.parse after the loop: decided by the LAST event that is an
+   Error/Bailout (ERROR) or a failing/unexpectedly passing subtest (FAIL) *)
+Fixpoint last_res (evs : list event) : option tres :=
+  match evs with
+  | [] => None
+  | e :: r =>
+      match last_res r with
+      | Some x => Some x
+      | None => match e with
+                | EError _ | EBail _ => Some ERROR
+                | ETest _ _ t _ => if is_bad t then Some FAIL else None
+                | _ => None
+                end
+      end
+  end.
+
+Lemma fold_event_last evs : forall r0 l0,
+  fold_left fold_event evs (r0, l0) =
+  (match last_res evs with Some x => Some x | None => r0 end, l0 ++ results evs).
+Proof.
+  induction evs as [|e evs IH]; intros r0 l0.
+  - simpl. rewrite app_nil_r. reflexivity.
+  - destruct e as [n nm t ex|k|p|m|v|m ln]; simpl fold_left; rewrite IH; simpl last_res;
+      destruct (last_res evs); try reflexivity;
+      try (change (results (ETest n nm t ex :: evs)) with (t :: results evs); rewrite <- app_assoc; simpl);
+      try reflexivity.
+    destruct (is_bad t); reflexivity.
+Qed.
+
+Definition all_skipped (evs : list event) : bool := forallb (fun r => tres_eqb r SKIP) (results evs).
+
+Lemma last_res_cases evs r : last_res evs = Some r -> r = ERROR \/ r = FAIL.
+Proof.
+  revert r. induction evs as [|e evs IH]; intro r; simpl; [discriminate|].
+  destruct (last_res evs) as [x|]; [intro H; inversion H; subst; apply IH; reflexivity|].
+  destruct e as [n nm t ex|k|p|m|v|m ln]; try discriminate.
+  - destruct (is_bad t); [intro H; inversion H; auto|discriminate].
+  - intro H; inversion H; auto.
+  - intro H; inversion H; auto.
+Qed.
+
+Lemma last_res_fail_not_all_skipped evs : last_res evs = Some FAIL -> all_skipped evs = false.
+Proof.
+  unfold all_skipped, results. induction evs as [|e evs IH]; simpl; [discriminate|].
+  destruct (last_res evs) as [x|] eqn:L.
+  - intro H. inversion H; subst. specialize (IH eq_refl).
+    destruct e; simpl; auto. rewrite IH. apply andb_false_r.
+  - destruct e as [n nm t ex|k|p|m|v|m ln]; try discriminate.
+    destruct (is_bad t) eqn:B; [|discriminate]. intros _. simpl.
+    destruct t; try discriminate; reflexivity.
+Qed.
+
+(* the result TestRunTAP reports, in closed form, for should_fail false and true *)
+Theorem verdict_closed_form rc xf evs :
+  verdict rc xf evs =
+  match last_res evs with
+  | Some ERROR => ERROR
+  | Some _ => if xf then EXPECTEDFAIL else FAIL     (* a subtest failed after the last error *)
+  | None =>
+      if all_skipped evs then (if negb (Z.eqb rc 0) then ERROR else SKIP)
+      else if negb (Z.eqb rc 0) then ERROR else if xf then UNEXPECTEDPASS else OK
+  end.
+Proof.
+  unfold verdict, tap_parse. rewrite fold_event_last. simpl app.
+  destruct (last_res evs) as [r|] eqn:E.
+  - destruct (last_res_cases _ _ E) as [-> | ->].
+    + destruct (forallb (fun r => tres_eqb r SKIP) (results evs)); unfold complete; simpl;
+        rewrite andb_false_r; destruct xf; reflexivity.
+    + pose proof (last_res_fail_not_all_skipped _ E) as A. unfold all_skipped in A. rewrite A.
+      unfold complete. simpl. rewrite andb_false_r. destruct xf; reflexivity.
+  - unfold all_skipped. destruct (forallb (fun r => tres_eqb r SKIP) (results evs)); unfold complete; simpl;
+      destruct (Z.eqb rc 0); simpl; destruct xf; reflexivity.
+Qed.
+
+(* a test marked should_fail: bad iff the last deciding event is an error/bail-out, or no subtest
+   failed and the run is not an all-skip with exit status 0 *)
+Theorem verdict_should_fail evs rc :
+  is_bad (verdict rc true evs) =
+  match last_res evs with
+  | Some ERROR => true
+  | Some _ => false
+  | None => negb (Z.eqb rc 0) || negb (all_skipped evs)
+  end.
+Proof.
+  rewrite verdict_closed_form.
+  destruct (last_res evs) as [r|] eqn:E.
+  - destruct (last_res_cases _ _ E) as [-> | ->]; reflexivity.
+  - destruct (all_skipped evs); destruct (Z.eqb rc 0); reflexivity.
+Qed.
+
+(* ------------------------------------------------------------------ *)
+(* The whole TAP run (parser + TestRunTAP) and the conversion limit     *)
+
+Lemma verdict_raises_small evs : maxnum evs < str_limit -> verdict_raises evs = false.
+Proof.
+  unfold verdict_raises, maxnum, numbers. induction evs as [|e evs IH]; simpl; intro H; [reflexivity|].
+  destruct e as [n nm t ex|k|p|m|v|m ln]; simpl in *; auto.
+  rewrite IH by lia. unfold py_str_ok.
+  replace (n <? str_limit) with true by (symmetry; apply N.ltb_lt; lia).
+  simpl. rewrite andb_false_r. reflexivity.
+Qed.
+
+Theorem run_verdict_partial lines rc xf :
+  short_lines lines -> exists r, run_verdict rc xf lines = Ok r.
+Proof.
+  intro H. apply short_lines_Lim in H. destruct H as [Hl Hn].
+  pose proof Lim_pos as Lim0.
+  destruct (run_lines_total lines init 0 Hl) as [s [e [Hr Hh]]]; [simpl; lia|simpl; lia|].
+  assert (Hs : highest_test s < str_limit) by (rewrite str_limit_Lim; unfold str in *; lia).
+  destruct (eof_total s Hs) as [e2 He].
+  pose proof (run_lines_inv lines [] init s e Inv_init Hr) as I. simpl in I.
+  pose proof (eof_spec _ _ He) as [Q _].
+  unfold run_verdict, parse. rewrite Hr. cbn [bind]. rewrite He. cbn [bind].
+  rewrite verdict_raises_small; [eauto|].
+  rewrite maxnum_app, (quiet_maxnum _ Q), N.max_0_r, <- (inv_high _ _ I). exact Hs.
+Qed.
+
+(* the parser survives (plan mismatch is reported first), TestRunTAP.parse does not *)
+Theorem run_verdict_refuted :
+  exists lines evs, parse lines = Ok evs /\ run_verdict 0 false lines = PyErr ValueError /\
+                    str_limit <= maxnum evs.
+Proof.
+  exists [s2l "1..5"; s2l "ok " ++ repeat 57 4300; s2l "ok"].
+  assert (H : match parse [s2l "1..5"; s2l "ok " ++ repeat 57 4300; s2l "ok"] with
+              | Ok evs => verdict_raises evs = true /\ (str_limit <=? maxnum evs) = true
+              | PyErr _ => False end) by (vm_compute; auto).
+  unfold run_verdict.
+  destruct (parse [s2l "1..5"; s2l "ok " ++ repeat 57 4300; s2l "ok"]) as [evs|c]; [|contradiction].
+  destruct H as [H1 H2]. exists evs. split; [reflexivity|]. cbn [bind]. rewrite H1.
+  split; [reflexivity|]. apply N.leb_le. exact H2.
 Qed.
